@@ -360,7 +360,7 @@ class Gen(object):
         n = t.weighted([5, 3, 1])
         acts = []
         for _ in range(n):
-            c = t.weighted([3, 3 if is_async else 0, 1 if self.on("raise") and not self.cfg.no_handlers else 0, 1])
+            c = t.weighted([3, (5 if where == "exit" else 3) if is_async else 0, 1 if self.on("raise") and not self.cfg.no_handlers else 0, 1])
             pid = self.nid()
             if c == 0:
                 if not self.on("probe"):
